@@ -105,6 +105,35 @@ def run(vc):
              "what is verified)")
     vc.assume_std("A-REAL", "A-GENERIC")
 
+    # ---- library: re-defining an existing type --------------------------------------------------------------------
+    for element in TYPES:
+        for overwrite in (True, False):
+            def h_redef(p, element=element, overwrite=overwrite):
+                data, pres = sym_type(element, "T")
+                old, _ = sym_type(element, "U", all_present=True)
+                before = {k: old.raw(k) for k in old.keys_list()}
+                net = netmodel.Net({"std_types": PDict({element: PDict({"existing": old})}), element: sym_table(element)}, strict=True)
+                out = p.call(f"{ST}:create_std_type", net, data, "existing", element, overwrite, True)
+                if out.raised:
+                    p.prove(f"lib[{element}]:redefine-rejects-only-incomplete", _incomplete(p, element, pres), note=f"create_std_type raised {out.exc!r}")
+                    return
+                got = p.call(f"{ST}:load_std_type", net, "existing", element)
+                if got.raised:
+                    p.prove(f"lib[{element}]:load-after-redefinition", False, note=f"load_std_type raised {got.exc!r}")
+                    return
+                tag = f"lib[{element}]:redefine[overwrite={overwrite}]"
+                if overwrite:
+                    # the new definition replaces the old one: exactly the parameters of the new definition, nothing kept from the old one
+                    _same_type(p, f"{tag}:load-returns-the-new-definition", got.value, data, pres, element)
+                else:
+                    _same_type(p, f"{tag}:the-old-definition-is-kept", got.value, old, {k: True for k in pres}, element)
+                # the dict object of the old definition (possibly shared with another net through copy_std_types) is not modified
+                same = all((old.presence(k) is True) and (old.raw(k) is before[k] or _is_same(old.raw(k), before[k])) for k in before) \
+                    and set(old.keys_list()) == set(before)
+                p.prove(f"{tag}:the-object-of-the-old-definition-is-not-modified", same, meta=dict(part="library", element=element),
+                        note="copy_std_types shares the definition objects between nets")
+            vc.explore(f"create_std_type[{element},redefine,overwrite={overwrite}]", h_redef, max_paths=40)
+
     # ---- library functions ---------------------------------------------------------------------------------------
     for element in TYPES:
         def h_lib(p, element=element):
@@ -260,6 +289,13 @@ def _eqv(a, b):
         else:
             za, zb = to_z(a, R), to_z(b, R)
     return za == zb
+
+
+def _is_same(a, b):
+    try:
+        return bool(z3.eq(to_z(a), to_z(b)))
+    except Exception:
+        return a == b
 
 
 def _same_type(p, label, got, want, pres, element):
